@@ -20,9 +20,9 @@ READING: a grid without unshaded cells is connected (library convention; only th
 import itertools
 
 NAME = "heyawake"
-STATUS = "differential only"
+STATUS = "model+differential"
 THEOREMS = []
-LEAN_CMD = None
+LEAN_CMD = "puz_heyawake"
 
 _SIZES = [(1, 1), (1, 2), (2, 1), (1, 3), (3, 1), (2, 2), (2, 3), (3, 2), (1, 4), (4, 1), (1, 5), (5, 1), (3, 3), (2, 4), (4, 2),
           (3, 4), (4, 3), (2, 5), (5, 2), (2, 6), (6, 2)]
@@ -173,3 +173,12 @@ def rule_check(problem, answer):
                 seen.add(p)
                 todo.append(p)
     return len(seen) == len(cells)
+
+
+def lean_line(problem):
+    if "rects" in problem:
+        rs = " ".join("(" + " ".join(str(v) for v in rc) + ")" for rc in problem["rects"])
+        return "(puz_heyawake %d %d rect (%s))" % (problem["height"], problem["width"], rs)
+    rooms = " ".join("(" + " ".join("(%d %d)" % (y, x) for y, x in rm) + ")" for rm in problem["rooms"])
+    clues = " ".join(str(n) for n in problem["clues"])
+    return "(puz_heyawake %d %d (%s) (%s))" % (problem["height"], problem["width"], rooms, clues)
